@@ -452,6 +452,12 @@ impl Property for C09 {
     fn pool_of(&self, case: &Self::Case) -> Option<usize> {
         case.base.pool_size()
     }
+    /// the same search again, a fifth of the cases, in the overflow-checked build of the harness
+    /// (debug assertions and overflow checks of the library on): "never a panic" is a claim about
+    /// every build profile
+    fn epilogue(&self, tier: Tier, seed: u64, _counters: &std::collections::BTreeMap<String, u64>, extra: &mut std::collections::BTreeMap<String, serde_json::Value>) -> Result<(), (Fail, serde_json::Value)> {
+        crate::engine::run_checked_profile_n("C09", tier, seed, Some((self.cases(tier) / 5).max(50)), extra)
+    }
     fn check(&self, case: &C09Case) -> Check {
         match (case.builder_scenario, case.base.f32) {
             (false, false) => run_hand::<f64>(case),
